@@ -780,6 +780,7 @@ pub fn builtin_catalog() -> Catalog {
         Vec<Shape>, BTreeMap<u8, Tree>, Vec<Outer>, (Point, Point),
         Streamed<u16>, Streamed<String>, Streamed<(u8, String)>, (Streamed<i64>, u8), Vec<Streamed<u32>>,
         Streamed<Point>, Vec<i8>, [i8; 3], LinkedList<i8>, Vec<u32>, BTreeSet<i8>,
+        SliceOf<u16>, SliceOf<String>, SliceOf<u8>, SliceOf<i8>, SliceOf<Point>, StrOf, (StrOf, u8), RcSlice<u32>, RcSlice<u8>,
         Big200, Vec<Big200>, (Big200, u8), Zipped, (Zipped, String), Vec<Zipped>, Archive, Vec<Archive>, (Archive, u8),
         Fragile, (String, Fragile), Vec<Fragile>, Brittle, Vec<Brittle>, (Brittle, Point),
     ];
